@@ -170,6 +170,10 @@ func reqVals(id int) (method, url, remote, ua, ref, custom, host string) {
 		remote = fmt.Sprintf("unix-r%dx", id) // no port
 	case 7:
 		host = fmt.Sprintf("host-r%dx.example", id) // no port
+	case 8:
+		remote = fmt.Sprintf("2001:db8::%x", id) // an IPv6 literal without port or brackets (what real-IP middleware leaves behind)
+	case 9:
+		remote = "::1"
 	}
 	return
 }
